@@ -2,6 +2,7 @@ from einx._src.adapter.einx_from_namedtensor import _parse_op
 from einx._src.adapter.einx_from_namedtensor import Invocation
 from einx._src.adapter.einx_from_namedtensor import solve as _solve2
 from einx._src.frontend.errors import SyntaxError
+from einx._src.frontend.errors import RankError
 from einx._src.namedtensor import ExpressionIndicator
 import einx._src.namedtensor.stage3 as stage3
 from collections import defaultdict
@@ -20,9 +21,8 @@ def _exprs_to_axes(exprs):
     for root in exprs:
         for expr in root.nodes():
             if isinstance(expr, stage3.Axis):
-                if expr.name.startswith(("unnamed.", ".", "UnexpandedEllipsis(")):
-                    # Unnamed axes (e.g. "3"), anonymous ellipses ("...") and ellipses with undetermined expansion have no
-                    # name under which their length could be reported
+                if expr.name.startswith(("unnamed.", ".")):
+                    # Unnamed axes (e.g. "3") and anonymous ellipses ("...") have no name under which their length could be reported
                     continue
                 tokens = expr.name.split(".")
                 values[tokens[0]].append((tuple(int(t) for t in tokens[1:]), expr.value))
@@ -40,7 +40,7 @@ def _exprs_to_axes(exprs):
     return values2
 
 
-def _solve(description, tensor_shapes, parameters, reraise, cse):
+def _solve(description, tensor_shapes, parameters, reraise, cse, require_expanded_ellipses=False):
     invocation = Invocation(
         description,
         name="operation",
@@ -58,6 +58,11 @@ def _solve(description, tensor_shapes, parameters, reraise, cse):
     try:
         exprs_in, exprs_out = _parse_op(f"{description} ->", el_op=None, invocation=invocation, allow_concat=True)
         exprs_in, exprs_out = _solve2(exprs_in, exprs_out, tensor_shapes, invocation, parameters, cse_concat=True, cse=cse)
+        if require_expanded_ellipses and any(
+            isinstance(expr, stage3.Axis) and expr.name.startswith("UnexpandedEllipsis(") for root in exprs_in for expr in root.nodes()
+        ):
+            # The number of repetitions of an ellipsis inside a flattened axis is not constrained by the tensor shape
+            raise RankError(invocation, message="Failed to uniquely determine the expansion of ellipses in the expression. Please provide more constraints.")
     except Exception:
         if reraise:
             raise
@@ -122,7 +127,7 @@ def solve_axes(description: str, *tensors: Tensor, **parameters: npt.ArrayLike) 
         >>> einx.solve_axes("a..., c a...", x, None, c=3)
         {'a': array([3, 4]), 'c': 3}
     """
-    exprs = _solve(description, [_get_shape(tensor) for tensor in tensors], parameters, reraise=True, cse=False)
+    exprs = _solve(description, [_get_shape(tensor) for tensor in tensors], parameters, reraise=True, cse=False, require_expanded_ellipses=True)
     return _exprs_to_axes(exprs)
 
 
